@@ -3,6 +3,8 @@ import Driver.BloomCmd
 import Driver.TableCmd
 import Driver.IterCmd
 import Driver.LsmCmd
+import Driver.DurCmd
+import Driver.ProtoCmd
 /-
 `raindrv`: one request per line on stdin, one answer per line on stdout.
 Unknown or malformed requests answer `bad-request` (never a default value).
@@ -19,6 +21,8 @@ def dispatch (toks : List String) : String :=
       else if cmd.startsWith "key." || cmd.startsWith "bytes." || cmd.startsWith "block." || cmd.startsWith "table." || cmd.startsWith "lookup." then tableCmd toks
       else if cmd.startsWith "merge." || cmd.startsWith "dbiter." then iterCmd toks
       else if cmd.startsWith "lsm." then lsmCmd toks
+      else if cmd.startsWith "dur." then durCmd toks
+      else if cmd.startsWith "proto." then protoCmd toks
       else none
     match r with
     | some s => s
